@@ -347,3 +347,37 @@ Proof.
   - intros (m & Hm & _ & Hk). cbn in Hm. destruct Hm as [<-|[<-|[]]]; vm_compute in Hk; discriminate.
   - vm_compute. reflexivity.
 Qed.
+
+(** * The batch-by-batch sink that is run against the implementation *)
+
+(** known class: the plan has no BY / PER and the columnar path files its aggregators
+    under a key that hashes differently from the row path's key *)
+Definition UngroupedMixedBatchPaths (p : plan) : Prop :=
+  Gen.Params.agg_columnar_default_prehash_zero && ungrouped p = true.
+
+Lemma fold_sink_batch_groups : forall p ng nf batches st,
+  Gen.Params.agg_columnar_default_prehash_zero && ungrouped p = false ->
+  sk_groups (fold_left (sink_batch p ng nf) batches st) =
+    fold_left (sink_step p) (concat (map (cells_of_batch ng nf) batches)) (sk_groups st)
+  /\ sk_col (fold_left (sink_batch p ng nf) batches st) = sk_col st.
+Proof.
+  intros p ng nf batches. induction batches as [|b bs IH]; intros st H; cbn [fold_left map concat].
+  - split; reflexivity.
+  - rewrite fold_left_app. destruct (IH (sink_batch p ng nf st b) H) as [E1 E2].
+    rewrite E1, E2. unfold sink_batch. rewrite H. cbn [andb sk_groups sk_col]. split; reflexivity.
+Qed.
+
+(** outside that class the sink has exactly one possible output: [flow_rows], the function
+    the theorems above are about *)
+Theorem flow_alts_outside_known : forall p ng nf batches,
+  ~ UngroupedMixedBatchPaths p ->
+  flow_alts p ng nf batches = [flow_rows p ng nf batches].
+Proof.
+  intros p ng nf batches H. unfold UngroupedMixedBatchPaths in H.
+  assert (E : Gen.Params.agg_columnar_default_prehash_zero && ungrouped p = false)
+    by (destruct (Gen.Params.agg_columnar_default_prehash_zero && ungrouped p); congruence).
+  unfold flow_alts.
+  destruct (fold_sink_batch_groups p ng nf batches
+              {| sk_groups := []; sk_col := None; sk_all := init_all (p_metrics p) |} E) as [E1 E2].
+  rewrite E2, E1. reflexivity.
+Qed.
